@@ -30,6 +30,7 @@ type SysOpts struct {
 	HostBases    []string
 	MetaLimit    int
 	BoltSync     bool // keep fsync on (C15)
+	Skew         bool // keep the default time-skew limit (requests carrying a far-off x-amz-date are refused)
 	// Wrap, when set, interposes on the Backend the front end is built on
 	// (schedule gates at backend-call granularity, C07).
 	Wrap func(gofakes3.Backend) gofakes3.Backend `json:"-"`
@@ -194,7 +195,9 @@ func (s *System) open(fresh bool) error {
 	if o.MetaLimit > 0 {
 		opts = append(opts, gofakes3.WithMetadataSizeLimit(o.MetaLimit))
 	}
-	opts = append(opts, gofakes3.WithTimeSkewLimit(0))
+	if !o.Skew {
+		opts = append(opts, gofakes3.WithTimeSkewLimit(0))
+	}
 	if o.Wrap != nil {
 		s.Backend = o.Wrap(s.Backend)
 	}
